@@ -1,23 +1,18 @@
 // Package spdycli is a scripted SPDY/3.1 client for the /verif harness
 // (property C40). wire.go is the wire level: frame encoding, a connection with
 // a reader goroutine, and one totally ordered log of everything sent and
-// received. bfe_spdy's exported Framer is used only as a codec (reading frames,
-// and compressing header blocks when writing); every fixed-layout frame is
-// encoded here so that ids/flags/values the Framer refuses to write (stream 0,
-// status 0, ...) can still be put on the wire. No flow-control or stream-state
-// logic of bfe is used: that bookkeeping lives in model.go.
+// received. The codec (codec.go) is the client's own, written from the SPDY/3.1
+// draft, so that ids/flags/values a well-behaved framer refuses (stream 0,
+// status 0, ...) can be put on the wire and so that nothing of bfe_spdy is
+// trusted; the stream-state and window bookkeeping lives in model.go.
 package spdycli
 
 import (
-	"bytes"
 	"encoding/binary"
 	"fmt"
 	"net"
 	"sync"
 	"time"
-
-	http "github.com/bfenetworks/bfe/bfe_http"
-	"github.com/bfenetworks/bfe/bfe_spdy"
 )
 
 // Frame kinds in the log.
@@ -66,11 +61,11 @@ type Event struct {
 	Delta  uint32 `json:"delta,omitempty"`  // WINDOW_UPDATE
 	PingID uint32 `json:"ping,omitempty"`
 	// SETTINGS: id/value pairs
-	Settings [][2]uint32 `json:"settings,omitempty"`
-	Token    int         `json:"token,omitempty"` // SYN_STREAM sent: handler token in :path
-	Note     string      `json:"note,omitempty"`
-	Headers  http.Header `json:"-"`
-	Data     []byte      `json:"-"`
+	Settings [][2]uint32         `json:"settings,omitempty"`
+	Token    int                 `json:"token,omitempty"` // SYN_STREAM sent: handler token in :path
+	Note     string              `json:"note,omitempty"`
+	Headers  map[string][]string `json:"-"`
+	Data     []byte              `json:"-"`
 }
 
 func (e Event) Fin() bool { return e.Flags&FlagFin != 0 }
@@ -105,9 +100,9 @@ func (e Event) String() string {
 
 // Conn is the client side of one connection.
 type Conn struct {
-	nc   net.Conn
-	fr   *bfe_spdy.Framer
-	wbuf bytes.Buffer // the Framer writes header frames here; patched, then sent
+	nc net.Conn
+	fr frameReader
+	hw headerWriter
 
 	mu     sync.Mutex
 	cond   *sync.Cond
@@ -128,11 +123,7 @@ type Conn struct {
 func NewConn(nc net.Conn, onEvent func(*Event)) (*Conn, error) {
 	c := &Conn{nc: nc, OnEvent: onEvent, nextPing: 1}
 	c.cond = sync.NewCond(&c.mu)
-	fr, err := bfe_spdy.NewFramer(&c.wbuf, nc)
-	if err != nil {
-		return nil, err
-	}
-	c.fr = fr
+	c.fr.r = nc
 	c.readerWG.Add(1)
 	go c.reader()
 	return c, nil
@@ -141,12 +132,9 @@ func NewConn(nc net.Conn, onEvent func(*Event)) (*Conn, error) {
 func (c *Conn) reader() {
 	defer c.readerWG.Done()
 	for {
-		f, err := c.fr.ReadFrame()
-		var ev Event
+		ev, err := c.fr.read()
 		if err != nil {
 			ev = Event{Dir: "R", Kind: KClosed, Note: err.Error()}
-		} else {
-			ev = fromFrame(f)
 		}
 		c.mu.Lock()
 		if err != nil {
@@ -172,34 +160,6 @@ func (c *Conn) appendLocked(ev *Event) {
 	keep := *ev
 	keep.Data = nil // payload is checked in OnEvent; not kept
 	c.log = append(c.log, keep)
-}
-
-func fromFrame(f bfe_spdy.Frame) Event {
-	switch v := f.(type) {
-	case *bfe_spdy.SynStreamFrame:
-		return Event{Dir: "R", Kind: KSynStream, Stream: uint32(v.StreamId), Flags: uint8(v.CFHeader.Flags), Headers: v.Headers}
-	case *bfe_spdy.SynReplyFrame:
-		return Event{Dir: "R", Kind: KSynReply, Stream: uint32(v.StreamId), Flags: uint8(v.CFHeader.Flags), Headers: v.Headers}
-	case *bfe_spdy.RstStreamFrame:
-		return Event{Dir: "R", Kind: KRstStream, Stream: uint32(v.StreamId), Status: uint32(v.Status)}
-	case *bfe_spdy.SettingsFrame:
-		ev := Event{Dir: "R", Kind: KSettings, Flags: uint8(v.CFHeader.Flags)}
-		for _, s := range v.FlagIdValues {
-			ev.Settings = append(ev.Settings, [2]uint32{uint32(s.Id), s.Value})
-		}
-		return ev
-	case *bfe_spdy.PingFrame:
-		return Event{Dir: "R", Kind: KPing, PingID: v.Id}
-	case *bfe_spdy.GoAwayFrame:
-		return Event{Dir: "R", Kind: KGoAway, Stream: uint32(v.LastGoodStreamId), Status: uint32(v.Status)}
-	case *bfe_spdy.HeadersFrame:
-		return Event{Dir: "R", Kind: KHeaders, Stream: uint32(v.StreamId), Flags: uint8(v.CFHeader.Flags), Headers: v.Headers}
-	case *bfe_spdy.WindowUpdateFrame:
-		return Event{Dir: "R", Kind: KWindowUpdate, Stream: uint32(v.StreamId), Delta: v.DeltaWindowSize}
-	case *bfe_spdy.DataFrame:
-		return Event{Dir: "R", Kind: KData, Stream: uint32(v.StreamId), Flags: uint8(v.Flags), Len: len(v.Data), Data: v.Data}
-	}
-	return Event{Dir: "R", Kind: KUnknown, Note: fmt.Sprintf("%T", f)}
 }
 
 // ---- encoding ------------------------------------------------------------
@@ -249,54 +209,36 @@ func (c *Conn) Note(ev Event) {
 	c.mu.Unlock()
 }
 
-// SynStream sends a SYN_STREAM. The header block is compressed by the Framer
-// (with a placeholder stream id) and the id is patched in afterwards, so that
-// id 0 and other ids the Framer refuses can be sent.
-func (c *Conn) SynStream(id uint32, token int, fin bool, hdr http.Header, prio uint8) error {
-	f := &bfe_spdy.SynStreamFrame{StreamId: 1, Headers: hdr, Priority: prio}
-	if fin {
-		f.CFHeader.Flags = bfe_spdy.ControlFlagFin
-	}
-	c.wbuf.Reset()
-	if err := c.fr.WriteFrame(f); err != nil {
+// SynStream sends a SYN_STREAM (any stream id, including 0).
+func (c *Conn) SynStream(id uint32, token int, fin bool, hdr map[string][]string, prio uint8) error {
+	blk, err := c.hw.block(hdr)
+	if err != nil {
 		return err
 	}
-	raw := append([]byte(nil), c.wbuf.Bytes()...)
-	binary.BigEndian.PutUint32(raw[8:], id)
 	fl := uint8(0)
 	if fin {
 		fl = FlagFin
 	}
-	return c.send(Event{Kind: KSynStream, Stream: id, Flags: fl, Token: token}, raw)
+	p := append(u32s(id, 0), prio<<5, 0)
+	p = append(p, blk...)
+	return c.send(Event{Kind: KSynStream, Stream: id, Flags: fl, Token: token}, ctrl(1, fl, p))
 }
 
 // Headers sends a HEADERS frame (kind KHeaders) or a SYN_REPLY (kind KSynReply).
-func (c *Conn) Headers(kind string, id uint32, fin bool, hdr http.Header) error {
-	var f bfe_spdy.Frame
-	if kind == KSynReply {
-		x := &bfe_spdy.SynReplyFrame{StreamId: 1, Headers: hdr}
-		if fin {
-			x.CFHeader.Flags = bfe_spdy.ControlFlagFin
-		}
-		f = x
-	} else {
-		x := &bfe_spdy.HeadersFrame{StreamId: 1, Headers: hdr}
-		if fin {
-			x.CFHeader.Flags = bfe_spdy.ControlFlagFin
-		}
-		f = x
-	}
-	c.wbuf.Reset()
-	if err := c.fr.WriteFrame(f); err != nil {
+func (c *Conn) Headers(kind string, id uint32, fin bool, hdr map[string][]string) error {
+	blk, err := c.hw.block(hdr)
+	if err != nil {
 		return err
 	}
-	raw := append([]byte(nil), c.wbuf.Bytes()...)
-	binary.BigEndian.PutUint32(raw[8:], id)
 	fl := uint8(0)
 	if fin {
 		fl = FlagFin
 	}
-	return c.send(Event{Kind: kind, Stream: id, Flags: fl}, raw)
+	typ := uint16(8)
+	if kind == KSynReply {
+		typ = 2
+	}
+	return c.send(Event{Kind: kind, Stream: id, Flags: fl}, ctrl(typ, fl, append(u32s(id), blk...)))
 }
 
 func (c *Conn) Data(id uint32, payload []byte, fin bool) error {
@@ -451,5 +393,4 @@ func (c *Conn) Closed() bool {
 func (c *Conn) Close() {
 	c.nc.Close()
 	c.readerWG.Wait()
-	c.fr.ReleaseWriter()
 }
